@@ -400,7 +400,9 @@ prop(
             (["./pipeline"], r"^\(\*processor\)\.(processEvent|doActions)$"),
             (["./metric"], r"truncateLabels$"),
             (["./plugin/action/decode", "./pipeline"], r"^\(\*Plugin\)\.(Do|decodeJson|checkError)$"),
-            (["./plugin/action/parse_es", "./pipeline"], r"^\(\*Plugin\)\.Do$")],
+            (["./plugin/action/parse_es", "./pipeline"], r"^\(\*Plugin\)\.Do$"),
+            (["./plugin/action/cardinality"], r"^\(\*Plugin\)\.Start$"),
+            (["./plugin/action/throttle"], r"^\(\*Plugin\)\.Start$")],
     canaries=[("./plugin/action/mask", "replay/C17/zz_replay_c17_test.go", "TestVerifReplayC17Tail"), ("./plugin/input/k8s", "replay/C13/zz_replay_c13_test.go", "TestVerifReplayC13"),
               ("./pipeline", "replay/C13/zz_timeout_wrong_action_test.go", "TestVerifTimeoutGoesToTheWaitingAction"),
               ("./metric", "replay/C13/zz_label_utf8_test.go", "TestVerifLabelValuesFromEventContent"),
@@ -409,7 +411,10 @@ prop(
               ("./plugin/action/decode", "replay/C13/zz_decode_prefix_test.go", "TestVerifDecodePrefixSurvivesLaterActions"),
               ("./cfg/substitution", "replay/C13/trimto_empty_cutset_test.go", "TestVerifTrimToEmptyCutset"),
               ("./plugin/action/decode", "replay/C13/zz_decode_check_error_test.go", "TestVerifDecodeCheckErrorWithLogging"),
-              ("./plugin/action/mask", "replay/C17/zz_group_order_test.go", "TestVerifMaskGroupOrder")],
+              ("./plugin/action/mask", "replay/C17/zz_group_order_test.go", "TestVerifMaskGroupOrder"),
+              ("./plugin/action/decode", "replay/C13/zz_decode_keep_origin_mangled_test.go", "TestVerifDecodeKeepOriginMangled"),
+              ("./plugin/action/cardinality", "replay/C13/zz_cardinality_label_collision_test.go", "TestVerifCardinalityLabelCollision"),
+              ("./plugin/action/throttle", "replay/C13/zz_throttle_zero_interval_test.go", "TestVerifThrottleZeroIntervalNegativeCount")],
     claim=(
         "No-panic of the index / slice arithmetic on event bytes in the action code brought under contract so far: mask.maskValue and maskSection (every index into the submatch vector and every slice of the value, for all values and all validated group lists), "
         "the k8s multiline action (every slice of the escaped log fragment, for every event content - empty string, non-string value, fragments shorter than the newline marker - under the state invariant 1 <= len(buffer) <= max_event_size-2 which Do itself preserves), "
@@ -432,10 +437,12 @@ prop(
     "C07",
     level="other",
     design_ref="DESIGN.md section 3, C07",
-    groups=[(["./plugin/input/file"], r"^(\(\*offsetDB\)\.(save|parseLine|parseOptionalLine|parseStreams|parseOne)|safeSubstring)$"),
+    groups=[(["./plugin/input/file"], r"^(\(\*offsetDB\)\.(save|parseLine|parseOptionalLine|parseStreams|parseOne|load)|safeSubstring)$"),
             (["./offset"], r"^(\(\*Offset\)\.(Save|saveToTmp|Load)|NewOffset|\(\*yamlValue\)\.(Load|Save))$")],
     canaries=[("./plugin/input/file", "replay/C07/zz_replay_c07_test.go", "TestVerifReplayC07"),
-              ("./plugin/input/file", "replay/C07/zz_empty_stream_test.go", "TestVerifOffsetsEmptyStreamNameRoundTrip")],
+              ("./plugin/input/file", "replay/C07/zz_empty_stream_test.go", "TestVerifOffsetsEmptyStreamNameRoundTrip"),
+              ("./plugin/input/file", "replay/C07/zz_parse_streams_colon_panic_test.go", "TestVerifParseStreamsColonPanic"),
+              ("./plugin/input/file", "replay/C07/zz_load_stat_error_test.go", "TestVerifLoadStatError")],
     script_canaries=["replay/C07/strace_save.sh"],
     claim=(
         "Save protocol proved for every failure pattern of open / write / sync / rename (each may fail on any call): both savers (file input's offsetDB.save and the generic offset.Save of journalctl/dmesg) rename the temporary file over the current one "
@@ -456,9 +463,10 @@ prop(
     "C03",
     level="other",
     design_ref="DESIGN.md section 3, C03",
-    groups=[(["./plugin/input/file", "./pipeline"], r"^(\(\*Plugin\)\.PassEvent|\(\*jobProvider\)\.(commit|truncateJob|initJobOffset|addJob|maintenanceJob)|\(\*worker\)\.(processEOF|work)|\(\*Pipeline\)\.streamEvent|sourceIDByStat)$")],
+    groups=[(["./plugin/input/file", "./pipeline"], r"^(\(\*Plugin\)\.PassEvent|\(\*jobProvider\)\.(commit|truncateJob|initJobOffset|addJob|maintenanceJob)|\(\*worker\)\.(processEOF|work)|\(\*Pipeline\)\.(streamEvent|In)|sourceIDByStat)$")],
     canaries=[("./plugin/input/file", "replay/C03/zz_truncation_tail_test.go", "TestVerifTruncationDropsStaleTail"),
-              ("./plugin/input/file", "replay/C03/zz_rejected_last_line_truncation_test.go", "TestVerifTruncationAfterRejectedLastLine")],
+              ("./plugin/input/file", "replay/C03/zz_rejected_last_line_truncation_test.go", "TestVerifTruncationAfterRejectedLastLine"),
+              ("./plugin/input/file", "replay/C03/zz_empty_stream_prefilter_test.go", "TestVerifEmptyStreamPrefilter")],
     claim=(
         "The sequential facts the kill-and-restart argument rests on, each a proved contract: on resume an event is dropped as already delivered only if its stream has a saved offset and the event's offset is not beyond it (PassEvent); "
         "commit stores the event's own offset, under the job lock, strictly larger than the stream's previous offset, and only for regular / split-parent events newer than the last truncation; "
@@ -479,7 +487,9 @@ prop(
     design_ref="DESIGN.md section 3, C15",
     groups=[(["./plugin/action/join", "./pipeline"], r"^(\(\*Plugin\)\.(Do|flush|isNextOK)|\(\*processor\)\.(processEvent|Propagate|doActions))$"),
             (["./plugin/input/k8s"], r"^(\(\*MultilineAction\)\.(Do|resetLogBuf)|endsWithNewLine)$")],
-    canaries=[("./plugin/input/k8s", "replay/C15/zz_k8s_backslash_n_test.go", "TestVerifK8sBackslashNIsNotEndOfLine")],
+    canaries=[("./plugin/input/k8s", "replay/C15/zz_k8s_backslash_n_test.go", "TestVerifK8sBackslashNIsNotEndOfLine"),
+              ("./plugin/input/k8s", "replay/C15/zz_k8s_cutoff_gap_test.go", "TestVerifK8sCutOffGap"),
+              ("./plugin/input/k8s", "replay/C15/zz_k8s_skip_survives_timeout_test.go", "TestVerifK8sSkipSurvivesTimeout")],
     claim=(
         "Single-step contracts of multi-line reassembly, for every value and every classification outcome (start / continue tests are uninterpreted): the join action's Do follows the table "
         "time-out -> flush, Discard; field absent -> flush if joining, Pass; start line -> flush if joining, hold this event, buffer = value, Hold; joining and continuing -> Collapse, buffer += value iff max_event_size == 0 or len(buffer) < it; otherwise flush if joining, Pass; "
